@@ -38,11 +38,6 @@ prop("C02", "K", "model_checking",
      technique="Kani/CBMC bounded model checking of InitExpr::to_wasmencoder_type and the DataType conversions against an independent byte-level reference encoder",
      outside="InitExpr::eval (decoder side, runs through wasmparser's operator reader), the name-section re-emission and the per-section emission loops of encode_internal; the struct arm of encode_type (CBMC out of memory, see harness/child_module.rs); multi-instruction (extended-const) expressions beyond ref.i31")
 
-prop("C08", "K", "model_checking",
-     text="(work in progress) K-opmap: every memory-referencing operator is remapped through the memory map.",
-     technique="Kani/CBMC bounded model checking of fix_op_id_mapping over all Operator variants with a field-name oracle",
-     outside="see DESIGN.md")
-
 
 def generated_harness_files(pid, tier, seed):
     out = {}
